@@ -28,7 +28,7 @@ def units(tier):
 def runner_tasks(tier):
     return [{"module": "c04", "task": "relations", "kind": "bounded", "clause": "all relations and output shapes, in floats"},
             {"module": "c07", "task": "energy_tables", "kind": "eval", "clause": "energy-dependent tables: one strictly increasing wavelength node per tabulated energy (vector calls interpolate on this axis)"},
-            {"module": "stateful", "task": "C04", "name": "stateful", "kind": "bounded", "clause": "deprecated Formula.neutron_sld method vs nsf.neutron_sld; argument arrays untouched"},
+            {"module": "stateful", "task": "C04", "name": "stateful", "kind": "bounded", "clause": "deprecated Formula.neutron_sld method vs nsf.neutron_sld; argument arrays untouched; regrouped strings and the composite calculator; results for a string do not depend on what other callers did to their parse of it"},
             {"module": "stateful", "task": "C03", "name": "stateful C03", "kind": "bounded", "clause": "vector = scalar entry-wise for every numeric type and array layout (incl. descending and unsorted)"}]
 
 
